@@ -541,6 +541,14 @@ func (r *resolver) resolveRef(rs *Resolved, s *Schema, ref string) (_ *Schema, d
 		// TODO: support that case.
 		if lrs := r.loaded[fraglessRefURI.String()]; lrs != nil {
 			referencedSchema = lrs.root
+			// rs needs the infos of the cached document too (for example, to look
+			// up an anchor below). The document may have been loaded on behalf of
+			// another document, or may still be in the middle of resolution (a cycle).
+			for s, i := range lrs.resolvedInfos {
+				if rs.resolvedInfos[s] == nil {
+					rs.resolvedInfos[s] = i
+				}
+			}
 		} else {
 			// Try to load the schema.
 			ls, err := r.opts.Loader(fraglessRefURI)
